@@ -17,7 +17,7 @@ from ..cfg import CFG, normal_compare
 from ..model import AnalysisError, own_nodes, unparse
 from ..pipeline import Pipeline
 from ..rows import package_stores
-from ..util import assignments_to, const_str
+from ..util import assignments_to, calls, const_str
 from ..values import Val, texts
 from . import c01
 
@@ -387,6 +387,61 @@ def rule_v7(ctx) -> None:
             ctx.finding("C03-V7", "SynCmd.cmd_run.configure_argparser:default-threshold", cfgf.loc(c), "the `run` command defaults --min-confidence to %r, not 0: with default options low-confidence MCS results come back unsolved with their imputed molecules still in the reaction" % (v,))
 
 
+def rule_v14(ctx, pl: Pipeline) -> None:
+    """Inside the pipeline an empty issue is repaired by the final validation (V2).  A result record that is made
+    *outside* it - a fallback row for a failed batch, a placeholder for a skipped input - never sees that step: if it
+    says `solved: False` its issue has to be a text that cannot be empty (a literal, a format with literal parts), not
+    the bare message of an exception (`str(e)` is "" for `MemoryError()`, a bare assert, a timeout)."""
+    from ..values import Env
+    from .c11 import _nonempty_text
+
+    ctx.rule("C03-V14", "a result record built outside the pipeline with solved=False carries an issue text that cannot be empty", 0)
+    prog = ctx.prog
+    solved, issue = pl.solved_col.text, pl.issue_col.text
+    stage_funcs = {st.callee.qualname for st in pl.stages}
+    n = 0
+    for q, f in sorted(prog.functions.items()):
+        if not (q.startswith("synrbl.balancing.") or q.startswith("synrbl.SynCmd.")) or q in stage_funcs or q == pl.func.qualname:
+            continue
+        inst = ctx.balancer if f.cls is not None and f.cls.qualname.endswith(".Balancer") else None
+        env = Env(func=f, params={}, inst=inst)
+        for d in [x for x in own_nodes(f.node) if isinstance(x, ast.Dict)]:
+            kv = {}
+            for k, v in zip(d.keys, d.values):
+                if k is None:
+                    continue
+                for t in texts(ctx.ev.eval(k, env)):
+                    kv[t] = v
+            if solved not in kv or not (isinstance(kv[solved], ast.Constant) and kv[solved].value is False):
+                continue
+            iv = kv.get(issue)
+            ok, why = False, "no issue at all"
+            if iv is not None:
+                cands = [iv]
+                if isinstance(iv, ast.Name) and iv.id in f.params:
+                    # bound at the call sites of this helper
+                    cands = []
+                    for g in prog.functions.values():
+                        for c in calls(g):
+                            tg = ctx.res.resolve_callee(c, g)
+                            if tg and tg[0] == "func" and tg[1] == q:
+                                params = f.params[1:] if f.cls is not None and not f.is_static else f.params
+                                i = params.index(iv.id) if iv.id in params else -1
+                                if 0 <= i < len(c.args):
+                                    cands.append(c.args[i])
+                                cands += [k.value for k in c.keywords if k.arg == iv.id]
+                if not cands:
+                    continue  # a helper nobody calls as written (expanded into its caller, judged there)
+                ok = all(_nonempty_text(c_, f) for c_ in cands)
+                why = "issue = %s" % ", ".join(unparse(c_)[:40] for c_ in cands)
+            n += 1
+            ctx.instance("C03-V14", "%s builds a declined record (%s)" % (q.split("synrbl.", 1)[-1], why), f.loc(d), ok=ok)
+            if not ok:
+                ctx.finding("C03-V14", "%s:fallback-row-without-reason" % q.split("synrbl.", 1)[-1], f.loc(d), "%s builds a result row with solved=False outside the pipeline, so the final validation never fills its issue, and the issue (%s) can be empty - the message of MemoryError(), of a bare assert or of a timeout is \"\": the reaction comes back declined without a reason" % (f.name, why))
+    if n == 0:
+        ctx.note("C03-V14: no result record is built outside the pipeline on this tree")
+
+
 def pl_of(ctx) -> Pipeline:
     return Pipeline(ctx)
 
@@ -411,3 +466,4 @@ def _carbon_clause_shared(ctx) -> None:
     from . import c02
 
     c02.rule_t2(ctx, pl_of(ctx), "C03-V13")
+    rule_v14(ctx, pl_of(ctx))
